@@ -117,6 +117,40 @@ func (x *Exec) call(s *State, fr *Frame, call *ast.CallExpr) Value {
 	site := x.siteOrdinal(fr, callText)
 	x.beforeCall(s, fr, call, callText, site)
 	var res Value
+	// append-like calls (contract directive): remember the first argument's region
+	var appendBase *SliceV
+	if cf := x.contractFrame(fr); cf != nil && x.spec == 0 && len(call.Args) > 0 {
+		for _, t := range cf.contract.AppendLike {
+			if t == callText {
+				if sv, ok := x.specExpr(s, fr, call.Args[0]).(*SliceV); ok {
+					appendBase = sv
+				} else {
+					unsup("appendlike call %s: first argument is not a slice", callText)
+				}
+			}
+		}
+	}
+	defer func() {
+		if appendBase == nil || res == nil {
+			return
+		}
+		var out *SliceV
+		switch r := res.(type) {
+		case *SliceV:
+			out = r
+		case *TupleV:
+			if len(r.V) > 0 {
+				out, _ = r.V[0].(*SliceV)
+			}
+		}
+		if out == nil {
+			return
+		}
+		et := info.TypeOf(call.Args[0]).Underlying().(*types.Slice).Elem()
+		fresh := x.newRegion(s, memName(et), "alloc")
+		s.assume(Or(And(Eq(out.Rgn, appendBase.Rgn), Not(Eq(appendBase.Cap, I64(0)))), Eq(out.Rgn, fresh), Eq(out.Cap, I64(0))))
+		x.note("assumed", "the call "+callText+" follows the append idiom: the slice it returns lies in its first argument's memory or in fresh memory")
+	}()
 	if cf := x.contractFrame(fr); cf != nil && x.spec == 0 {
 		for _, t := range cf.contract.FrameCalls {
 			if t != callText {
@@ -945,6 +979,13 @@ func (x *Exec) runBody(s *State, nf *Frame, body *ast.BlockStmt, pos token.Pos) 
 func (x *Exec) initGhost(s *State, fr *Frame, c *Contract) {
 	for _, g := range c.Ghost {
 		v := x.specExpr(s, fr, g.Init.Expr)
+		// the initial value has the ghost variable's declared type (an untyped constant
+		// would otherwise keep its default width)
+		if sc, ok := v.(*Scalar); ok && sc.T.Sort.IsBV() {
+			if want, ok := x.scalarSort(g.Var.Type()); ok && want.IsBV() && want != sc.T.Sort {
+				v = &Scalar{T: Resize(sc.T, want.Width(), isSigned(g.Var.Type()))}
+			}
+		}
 		s.vars[g.Var] = v
 	}
 }
@@ -1167,6 +1208,14 @@ func (x *Exec) pvcHelper(s *State, fr *Frame, name string, args []Value, call *a
 			return &Scalar{T: x.ctx.Share(And(Eq(a.Rgn, b.Rgn), Eq(a.Off, b.Off), Eq(a.Len, b.Len)))}
 		}
 		unsup("pvc_same on %T", args[0])
+	case "pvc_overlap":
+		// the two slices may share memory (same region, both with capacity)
+		a, ok1 := args[0].(*SliceV)
+		b, ok2 := args[1].(*SliceV)
+		if !ok1 || !ok2 {
+			unsup("pvc_overlap on non-slices")
+		}
+		return &Scalar{T: x.ctx.Share(And(Eq(a.Rgn, b.Rgn), Not(Eq(a.Cap, I64(0))), Not(Eq(b.Cap, I64(0)))))}
 	case "pvc_local":
 		a, ok := args[0].(*SliceV)
 		if !ok {
